@@ -346,7 +346,20 @@ class OpsMixin:
                 tok = X.expr_tok(rec, cx, f"{new_id}.{j}")
                 window = window or X.expr_ftype(rec, self.expr_recs) != "ew"
                 items.append((name, tok))
-            return M.mutate(m, new_id, items, window=window)
+            res = M.mutate(m, new_id, items, window=window)
+            if m.ung is not None:
+                dep = set(m.ung)
+                for (name, tok), (_, rec) in zip(items, vs["cols"], strict=True):
+                    srcs = []
+                    for a in X.refargs_of(rec, self.expr_recs):
+                        try:
+                            srcs.append(cx.resolve(strip_refarg(a)))
+                        except (X.OutOfScope, KeyError):
+                            pass
+                    if any(t in dep for t in srcs):
+                        dep.add(tok.id)
+                res.ung = frozenset(dep)
+            return res
         if op == "filter":
             for p in vs["preds"]:
                 X.pred_check(p, cx)
